@@ -98,7 +98,7 @@ func c12Server(cfg c12Config, seen *c12Seen) (*harness.One, wire.Parameters, err
 	return one, global, err
 }
 
-func c12Run(cfg c12Config, kv []string) explore.Result {
+func c12Run(cfg c12Config, kv []string, behindSSL ...bool) explore.Result {
 	var res explore.Result
 	seen := &c12Seen{}
 	one, global, err := c12Server(cfg, seen)
@@ -107,7 +107,19 @@ func c12Run(cfg c12Config, kv []string) explore.Result {
 		return res
 	}
 	defer one.Stop()
-	out, st := one.Step(pgproto.Startup(kv...))
+	var out []byte
+	var st memnet.Status
+	if len(behindSSL) > 0 && behindSSL[0] {
+		// the start-up packet arrives in the same segment as an SSLRequest the server refuses
+		out, st = one.Step(pgproto.Cat(pgproto.SSLRequest(), pgproto.Startup(kv...)))
+		if len(out) == 0 || out[0] != 'N' {
+			res.Fail("ssl-refusal", fmt.Sprintf("SSLRequest without certificates answered % x, expected N first", out))
+			return res
+		}
+		out = out[1:]
+	} else {
+		out, st = one.Step(pgproto.Startup(kv...))
+	}
 	if cfg.Auth {
 		if k := harness.Kinds(out); k != "R" {
 			res.Fail("auth-exchange", fmt.Sprintf("expected the password request, got %q", k))
@@ -287,6 +299,8 @@ type c12Bad struct {
 	Pre      []byte
 	PreReply string
 	Silent   bool // no protocol bytes at all may follow
+	// Inline: Pre is delivered in the SAME segment as the packet (a client that does not wait for the SSL answer)
+	Inline bool
 }
 
 func c12BadPackets() []c12Bad {
@@ -299,6 +313,8 @@ func c12BadPackets() []c12Bad {
 		{Name: "version only", Bytes: pgproto.Untyped(ver)},
 		{Name: "CancelRequest as first packet", Bytes: pgproto.CancelRequest(1, 2), Silent: true},
 		{Name: "CancelRequest after SSLRequest->N", Pre: pgproto.SSLRequest(), PreReply: "N", Bytes: pgproto.CancelRequest(1, 2), Silent: true},
+		{Name: "CancelRequest in the same segment as a refused SSLRequest", Pre: pgproto.SSLRequest(), PreReply: "N", Inline: true, Bytes: pgproto.CancelRequest(1, 2), Silent: true},
+		{Name: "startup without terminator in the same segment as a refused SSLRequest", Pre: pgproto.SSLRequest(), PreReply: "N", Inline: true, Bytes: pgproto.Untyped(pgproto.Cat(ver, []byte("user\x00alice\x00")))},
 		{Name: "CancelRequest with short body", Bytes: pgproto.Untyped(pgproto.Be32(pgproto.CancelCode)), Silent: true},
 	}
 }
@@ -312,7 +328,7 @@ func c12RunBad(cfg c12Config, b c12Bad) explore.Result {
 		return res
 	}
 	defer one.Stop()
-	if b.Pre != nil {
+	if b.Pre != nil && !b.Inline {
 		out, st := one.Step(b.Pre)
 		if string(out) != b.PreReply || st != memnet.Parked {
 			res.Fail("ssl-refusal", fmt.Sprintf("SSLRequest without certificates answered %q (%s), expected the single byte N", out, st))
@@ -320,7 +336,18 @@ func c12RunBad(cfg c12Config, b c12Bad) explore.Result {
 		}
 	}
 	// followed by a pipelined query which must never run
-	out, st := one.Step(pgproto.Cat(b.Bytes, pgproto.Query("q")))
+	var out []byte
+	var st memnet.Status
+	if b.Inline {
+		out, st = one.Step(pgproto.Cat(b.Pre, b.Bytes, pgproto.Query("q")))
+		if !strings.HasPrefix(string(out), b.PreReply) {
+			res.Fail("ssl-refusal", fmt.Sprintf("%s: answered % x, expected it to start with %q", b.Name, out, b.PreReply))
+			return res
+		}
+		out = out[len(b.PreReply):]
+	} else {
+		out, st = one.Step(pgproto.Cat(b.Bytes, pgproto.Query("q")))
+	}
 	if st != memnet.Closed {
 		res.Fail("not-closed", fmt.Sprintf("%s: connection is %s, expected it to be closed", b.Name, st))
 	}
@@ -349,7 +376,7 @@ func init() {
 		ID:          "C12",
 		Level:       "model_checking",
 		Technique:   "exhaustive enumeration of startup packets x server configurations on a real server (sequential part) and of all schedules of concurrently connecting users under a cooperative scheduler up to a preemption bound (schedule part, run by the C15 engine), against a reference description of the negotiation",
-		Rule:        "all startup key/value lists of <= n pairs over 4 keys x 3 values (duplicates included) x 30 server configurations (5 global maps x 2 versions x auth on/off, and 5 global maps preceded by a second GlobalParameters option with an empty / a two-entry map); 8 malformed / cancel packets x 30 configurations; distinct = distinct (configuration, packet)",
+		Rule:        "all startup key/value lists of <= n pairs over 4 keys x 3 values (duplicates included) x 30 server configurations (5 global maps x 2 versions x auth on/off, and 5 global maps preceded by a second GlobalParameters option with an empty / a two-entry map); lists of <= 2 pairs also delivered in the same segment as a refused SSLRequest; 10 malformed / cancel packets (two of them in the same segment as a refused SSLRequest) x 30 configurations; distinct = distinct (configuration, packet)",
 		Assumptions: []string{"not asserted: order inside the ParameterStatus block; which duplicate of a repeated startup key wins; the value sent when a configured key collides with a standard parameter (either is accepted, exactly once)"},
 		Enumerate:   c12Enumerate,
 		Bounds: func(tier string) map[string]any {
@@ -382,6 +409,17 @@ func c12Enumerate(tier string, emit explore.Emit) {
 			emit(explore.Case{Family: "startup", Size: len(sh),
 				Desc: func() any { return map[string]any{"config": cfg.Name, "startup_pairs": kv} },
 				Run:  func() explore.Result { return c12Run(cfg, kv) }})
+			if len(sh) <= 2 {
+				emit(explore.Case{Family: "startup", Size: len(sh) + 1,
+					Desc: func() any {
+						return map[string]any{"config": cfg.Name, "startup_pairs": kv, "delivery": "in the same segment as a refused SSLRequest"}
+					},
+					Run: func() explore.Result {
+						r := c12Run(cfg, kv, true)
+						r.Key += " behind-ssl"
+						return r
+					}})
+			}
 		})
 		for _, b := range c12BadPackets() {
 			b := b
